@@ -1333,6 +1333,18 @@ func init() {
 						}
 					}
 				}
+				// right-to-left programs: own Replace / Split / find-all paths and buffers
+				if pi%2 == 0 || tier == "thorough" {
+					for oi, op := range []string{"rp", "sp", "fa", "fs"} {
+						for hi, h := range []string{"rp", "fs", "sp"} {
+							if tier != "thorough" && (pi/2+oi+hi+seed)%3 != 0 {
+								continue
+							}
+							params := map[string]string{"pattern": p.a, "pattern_b": p.b, "options": itoa(patterns.OptRTL), "copts": "", "n": itoa(n), "hn": itoa(hn), "op": op, "history": h, "key_extra": "rtl/" + op + "/" + h}
+							us = append(us, Unit{ID: fmt.Sprintf("C12/%s/rtl/%s/after/%s", p.a, op, h), Harness: "history", Params: params})
+						}
+					}
+				}
 				// the Regexp's own earlier call is aborted by its stack limit after inner groups have captured
 				if lt := map[string]string{`(a)|b`: "", `(?:(a)|b)*c`: "abababababababababababababababab", `(a*)(b)?`: "", `(?<o>a)+(?<-o>b)+(?(o)(?!))`: "aaaaaaaaaaaaaaaaaaaaaaaaaaaaaaaaaaaaaaaaaaaaaaaaaaaaaaaaaaaab"}[p.a]; lt != "" {
 					for _, op := range []string{"fs", "ms", "rp"} {
@@ -1372,9 +1384,6 @@ func init() {
 			var us []Unit
 			for pi, p := range pats {
 				for mi, mx := range mixes {
-					if tier != "thorough" && (pi+mi+seed)%3 != 0 {
-						continue
-					}
 					if pi == 0 && mi == 0 {
 						// timed matches from two goroutines: the process-wide timeout clock (same harness as C14's concurrent event)
 						for _, h := range []string{"conc2", "timed,conc2"} {
@@ -1382,8 +1391,19 @@ func init() {
 								Params: map[string]string{"pattern": "clock", "history": h, "period_ns": "100000000", "jitter_ns": "0", "ddom": "200000000", "waitdom": "0-600000000", "preempt": "2", "key_extra": "clock/" + h, "interp_replay": "1"}})
 						}
 					}
+					if tier != "thorough" && (pi+mi+seed)%3 != 0 {
+						continue
+					}
 					us = append(us, Unit{ID: fmt.Sprintf("C11/%s/%s", p.a, mx), Harness: "conc", PathBudget: 30000,
 						Params: map[string]string{"pattern": p.a, "pattern_b": p.b, "options": "0", "copts": "", "n": itoa(n), "ops": mx, "preempt": itoa(pre), "key_extra": mx, "interp_replay": "1"}})
+				}
+				// right-to-left programs take their own Replace / Split / find-all code paths (own buffers)
+				for mi, mx := range []string{"rp,ms", "sp,fa", "rp,rq", "fs,rp"} {
+					if tier != "thorough" && (pi+seed)%4 != mi {
+						continue
+					}
+					us = append(us, Unit{ID: fmt.Sprintf("C11/%s/rtl/%s", p.a, mx), Harness: "conc", PathBudget: 30000,
+						Params: map[string]string{"pattern": p.a, "pattern_b": p.b, "options": itoa(patterns.OptRTL), "copts": "", "n": itoa(n), "ops": mx, "preempt": itoa(pre), "key_extra": "rtl/" + mx, "interp_replay": "1"}})
 				}
 			}
 			return us
